@@ -1,4 +1,3 @@
-    broadcast use {crate::symspec::lemma_texts_subrange, crate::symspec::lemma_drop_first_is_subrange, crate::symspec::axiom_key_text_string};
     /// R8 helper: stands for `MAP.get(KEY.borrow())` on a HashMap<String, ItemRef<T>> with a key of a type
     /// S: Borrow<str>.  ASSUMED contract: the result is the uninterpreted lookup `spec_lookup` of the key's
     /// text in the map (vstd cannot relate String keys to borrowed &str keys for a generic S).
@@ -26,6 +25,9 @@
     pub fn verif_clone_strings(s: &[String]) -> (r: Vec<String>)
         ensures r@ == s@
     { unimplemented!() }
+    /// R16 helper: `SLICE.iter().map(|s| s.borrow().to_string()).collect::<Vec<String>>()` (text used only in a message)
+    #[verifier::external_body]
+    pub fn verif_to_strings<S: std::borrow::Borrow<str>>(s: &[S]) -> (r: Vec<String>) { unimplemented!() }
     /// an empty children map (HashMap::new) has no entries in the lookup model (ASSUMED)
     #[verifier::external_body]
     pub fn verif_new_children<T>() -> (r: std::collections::HashMap<String, util::ItemRef<T>>)
